@@ -3,7 +3,7 @@ from fractions import Fraction as Fr
 import itertools
 from symnp import core
 from symnp.core import band, bor, bnot, iff, implies
-from .common import POOL, TINY, slice_points, ZIGZAG, TIE7
+from .common import POOL, TINY, slice_points, ZIGZAG, TIE7, BUMP6
 from .rdpstubs import Stubs, patched, tagged_points, well_formed, STUB_DOC
 
 PROPERTY = 'C06'
@@ -15,7 +15,7 @@ BOUNDS = dict(quick='L1: n <= 5 (n = 7 with concrete tent-shaped distances and f
               thorough='L1: n <= 6, threshold lists of length <= 3; L0: 12 pool curves, all five metrics')
 ASSUMPTIONS = ['exact real arithmetic (T1)', 't > 0 (t <= 1 for R2)', 'L1: distance, ordering score and global cost are free reals keyed by segment / breakpoint set']
 CONFIG = dict(quick=dict(budget_s=170, case_wall_s=150, max_paths=30000), thorough=dict(max_cases=450, budget_s=900, case_wall_s=700, max_paths=600000))
-SPECIAL = dict(zigzag=ZIGZAG, tie7=TIE7)
+SPECIAL = dict(zigzag=ZIGZAG, tie7=TIE7, bump6=BUMP6)
 DIST = ['shortest', 'perpendicular']
 ORD = ['segment', 'triangle', 'area']
 
@@ -36,6 +36,8 @@ def cases(tier, seed):
     for o in ('triangle', 'segment'):
         for pos in ([[]] if q else [[], [1], [3], [5]]):
             out.append(dict(layer='L0', nra_at_decide=False, fn='grdp', curve='tie7', pos=pos, distance='shortest', order=o, metric='smape', mps=[0, 7]))
+    for pos in ([[]] if q else [[], [2], [3]]):
+        out.append(dict(layer='L0', nra_at_decide=False, fn='grdp', curve='bump6', pos=pos, distance='shortest', order='segment', metric='smape', t_hint='3/10'))
     if not q:
         for o in ORD:
             out.append(dict(layer='L0', nra_at_decide=False, fn='grdp', curve='zigzag', pos=[6], distance='shortest', order=o, metric='smape', mps=[0, 12]))
@@ -94,6 +96,8 @@ def run(h, case):
     else:
         X, Y = slice_points(h, SPECIAL.get(case['curve']) or POOL[case['curve']], case['pos'])
         n = len(X)
+        if h.sym and case.get('t_hint'):
+            h.c.hints['t'] = Fr(case['t_hint'])
         pts = h.argument(h.array([[a, b] for a, b in zip(X, Y)]))
         import contextlib
         ctxm = contextlib.nullcontext()
